@@ -418,6 +418,11 @@ func (P *Prog) implementations(recv types.Type, m *types.Func) []*ssa.Function {
 	if !ok {
 		return nil
 	}
+	// Only interfaces declared in the repository are resolved to repository types: a call through io.Writer,
+	// io.Reader, error ... is not taken to reach every repo type that happens to have a Write method.
+	if n, ok := recv.(*types.Named); !ok || !P.isRepoPkg(n.Obj().Pkg()) {
+		return nil
+	}
 	key := types.TypeString(recv, nil) + "#" + m.Name()
 	if r, ok := P.implMemo[key]; ok {
 		return r
